@@ -19,7 +19,7 @@ HASHSEEDS = {'quick': 1, 'thorough': 1}
 MIB = 1024 * 1024
 SIZES = {'0.4': 419430, '1.0': MIB, '1.5': MIB + MIB // 2, '2.0': 2 * MIB, 'sd': 313,
          # sizes that separate 10^6 from 2^20 (used in the many-equal-blobs cases only)
-         '1e6': 1_000_000, '1MiB-1': MIB - 1, '2e6': 2_000_000}
+         '1e6': 1_000_000, '1MiB-1': MIB - 1, '2e6': 2_000_000, '1MiB+1': MIB + 1, '2MiB-1': 2 * MIB - 1}
 SIZE_NAMES = ['0.4', '1.0', '1.5', '2.0']
 
 
@@ -823,7 +823,7 @@ def enumerate_cases(quick):
                     add([], [], dlf, net, lc, ln, pub=pub)
     add([], [], ['1.0'], [], ('rel', -1), ('abs', 0), pub=['1.5'], entry='loop')
     # I: many equal blobs in one pass, sizes that separate 10^6 from 2^20
-    for size in ('1e6', '1MiB-1', '2e6') + (() if quick else ('2.0',)):
+    for size in ('1e6', '1MiB-1', '2e6', '1MiB+1', '2MiB-1') + (() if quick else ('2.0',)):
         for k in (12, 24, 40):
             for spec in (('rel', -1), ('rel', -(k // 4)), ('rel', -(k // 2))):
                 add([], [], [size] * k, [], spec, ('abs', 0))
@@ -913,7 +913,7 @@ def run(ctx):
               'files restored + restart): ownership stays what was recorded first; (H) publications made through the '
               'real entry point (create_stream + blob_completed, store_stream with get_blob(sd_hash, is_mine=True), '
               'save_published_file; real encrypted blobs) x limits at and below what they occupy; (I) 12/24/40 equal '
-              'blobs of 1,000,000 / 1,048,575 / 2,000,000 bytes in one class x limits used-1, used-k/4, used-k/2; sizes {0.4,1.0,1.5,2.0} MiB, distinct ages, limits {0, used-2, used-1, used, used+1, 10*used} '
+              'blobs of 1,000,000 / 1,048,575 / 1,048,577 / 2,000,000 / 2,097,151 bytes in one class x limits used-1, used-k/4, used-k/2; sizes {0.4,1.0,1.5,2.0} MiB, distinct ages, limits {0, used-2, used-1, used, used+1, 10*used} '
               'relative to the REAL usage (negative ones dropped). Each case runs clean(), clean() again, then a '
               'new download + a new network blob and clean() a third time; deletions are attributed to the content / '
               'network half of each clean(), a half that does not run is judged as an empty half. Non-trivial = a '
